@@ -168,10 +168,24 @@ Proof. exact dbp_residual. Qed.
 Example C12_dbp_nonvacuous : let A := mk 4 0 0 0 9 0 0 0 16 in
   dbp_regular [1%R] (A, A) /\ fst (dbp_iter [1%R] (A, A)) = mk (5 / 2) 0 0 0 5 0 0 0 (17 / 2).
 Proof. exact dbp_nonvacuous. Qed.
-(* NOT PROVED: convergence of the iteration (M_k -> I; quadratic for matrices without eigenvalues on the closed negative axis), that
-   the scaled M_k stay invertible (hypothesis dbp_regular), sizes other than 3x3 (the proofs use only ring laws and the two-sided
-   inverse, but are stated over the 3x3 record), the role of the scaling heuristic, binary64 rounding, and the inverse
-   scaling-and-squaring logarithm _logm_iss / log_pade_pf (certified per instance through expm(logm A) = A only). *)
+(* (f) round 4 -- LinAlg._logm_iss: the inverse scaling-and-squaring identity.  The loop replaces X by sqrtm(X) k times and the routine
+   returns 2^k log_pade_pf(X_k - I).  For ANY function L with the doubling law L(X X) = 2 L(X) on a set containing the iterates (the
+   principal logarithm, away from the closed negative axis), L(A) = 2^k L(X_k) along every chain of square roots; instance: ln on the
+   positive reals.  The chain hypothesis (X_{i+1}^2 = X_i) is evaluated on the implementation's (X_k, k) on every run. *)
+Theorem C12_iss_identity : forall (Mx : Type) (mul : Mx -> Mx -> Mx) (scal : R -> Mx -> Mx) (L : Mx -> Mx) (good : Mx -> Prop),
+  (forall X, good X -> L (mul X X) = scal 2 (L X)) -> (forall s t X, scal s (scal t X) = scal (s * t) X) -> (forall X, scal 1 X = X) ->
+  forall (Xs : list Mx) (A : Mx), sqrt_chain Mx mul good A Xs -> L A = scal (2 ^ length Xs) (L (last Xs A)).
+Proof. exact iss_identity_abstract. Qed.
+Theorem C12_iss_identity_scalar : forall (Xs : list R) (a : R),
+  sqrt_chain R Rmult (fun x => 0 < x) a Xs -> ln a = 2 ^ length Xs * ln (last Xs a).
+Proof. exact iss_identity_scalar. Qed.
+Example C12_iss_nonvacuous : sqrt_chain R Rmult (fun x => 0 < x) 16 [4; 2] /\ ln 16 = 2 ^ 2 * ln 2.
+Proof. exact iss_nonvacuous. Qed.
+(* NOT PROVED: convergence of the Denman-Beavers iteration (M_k -> I; quadratic for matrices without eigenvalues on the closed negative
+   axis), that the scaled M_k stay invertible (hypothesis dbp_regular), sizes other than 3x3 (the proofs use only ring laws and the
+   two-sided inverse, but are stated over the 3x3 record), the role of the scaling heuristic, binary64 rounding; for _logm_iss: that a
+   matrix logarithm with the doubling law exists (no matrix logarithm is defined here), the accuracy of the Pade / Gauss-Legendre
+   partial-fraction approximant log_pade_pf and the degree selection (certified per instance through expm(logm A) = A only). *)
 
 (* (d) verified result checkers *)
 Local Open Scope Q_scope.
